@@ -67,7 +67,7 @@ Lemma exec_mixin ps body st out :
   exec (SMixin ps body) (st, out) =
   let args := map (fun p => (fst p, eval_expr st (snd p))) ps in
   let argscope := fold_left (fun f p => f_set f (fst p) (snd p)) args [] in
-  let (st', out') := exec_list body (mkSt [argscope; []] (global st), out) in
+  let (st', out') := exec_list body (mkSt [argscope] (global st), out) in
   (mkSt (locals st) (global st'), out').
 Proof. reflexivity. Qed.
 
@@ -248,3 +248,280 @@ Lemma refuted_K2 : known_class prog_K2 = 2 /\ disagrees prog_K2 = true.
 Proof. vm_compute. split; reflexivity. Qed.
 Lemma refuted_K3 : known_class prog_K3 = 3 /\ disagrees prog_K3 = true.
 Proof. vm_compute. split; reflexivity. Qed.
+
+(* ------------------------------------------------------------------ main theorem (partial):
+   programs without @if/@each - every block kind for which rsass creates a Scope, @for, @while,
+   mixins, all flag combinations - agree with the reference whenever the reference run has no
+   known-class event *)
+Fixpoint hard_only (s : stmt) : bool :=
+  let go := fix go (l : list stmt) : bool :=
+    match l with [] => true | x :: r => hard_only x && go r end in
+  match s with
+  | SSet _ _ _ _ | SRead _ _ => true
+  | SBlock _ b | SFor _ _ _ _ b | SWhile _ b | SMixin _ b => go b
+  | SIf _ _ _ | SEach _ _ _ => false
+  end.
+Fixpoint hard_only_list (l : list stmt) : bool :=
+  match l with [] => true | x :: r => hard_only x && hard_only_list r end.
+
+Lemma sexec_set x e d g st out ev :
+  sexec (SSet x e d g) (st, out, ev) =
+  let (st', e') := assign st x (seval_expr st e) d g in (st', out, ev_or ev e').
+Proof. reflexivity. Qed.
+Lemma sexec_read id x st out ev : sexec (SRead id x) (st, out, ev) = (st, out ++ [(id, slookup st x)], ev).
+Proof. reflexivity. Qed.
+Lemma sexec_block k body st out ev :
+  sexec (SBlock k body) (st, out, ev) =
+  let '(st', out', ev') := sexec_list body (spush st TRule [], out, ev) in (spop st', out', ev').
+Proof. reflexivity. Qed.
+Lemma sexec_for x a b incl body st out ev :
+  sexec (SFor x a b incl body) (st, out, ev) =
+  fold_left (fun so i =>
+               let '(s1, o1, e1) := so in
+               let '(s2, o2, e2) := sexec_list body (spush s1 TFor [(x, SV i)], o1, e1) in
+               (spop s2, o2, e2))
+            (spec_range a b incl) (st, out, ev).
+Proof. reflexivity. Qed.
+Lemma sexec_while n body st out ev :
+  sexec (SWhile n body) (st, out, ev) =
+  let '(st', out', ev') := repeat_fn n (sexec_list body) (spush st TWhile [], out, ev) in
+  (spop st', out', ev').
+Proof. reflexivity. Qed.
+Lemma sexec_mixin ps body st out ev :
+  sexec (SMixin ps body) (st, out, ev) =
+  let args := map (fun p => (fst p, seval_expr st (snd p))) ps in
+  let pframe := fold_left (fun f p => f_set f (fst p) (snd p)) args [] in
+  let '(st', out', ev') := sexec_list body (mkSS [(TMixin, pframe)] (sglobal st), out, ev) in
+  (mkSS (slocals st) (sglobal st'), out', ev_or ev' (mkEv false false (each_alias_any (slocals st)))).
+Proof. reflexivity. Qed.
+
+Lemma ev_or_none a b : ev_or a b = ev_none -> a = ev_none /\ b = ev_none.
+Proof.
+  destruct a as [a1 a2 a3], b as [b1 b2 b3]. unfold ev_or, ev_none. cbn. intros H. injection H as H1 H2 H3.
+  apply orb_false_iff in H1. apply orb_false_iff in H2. apply orb_false_iff in H3.
+  destruct H1, H2, H3. subst. auto.
+Qed.
+
+(* events only accumulate *)
+Definition mono (s : stmt) : Prop :=
+  hard_only s = true -> forall st out ev, snd (sexec s (st, out, ev)) = ev_none -> ev = ev_none.
+Lemma mono_list body : Forall mono body -> hard_only_list body = true ->
+  forall so, snd (sexec_list body so) = ev_none -> snd so = ev_none.
+Proof.
+  induction 1 as [|s r Hs _ IH]; intros Hh so E; cbn [sexec_list] in *; [exact E|].
+  cbn [hard_only_list] in Hh. apply andb_true_iff in Hh. destruct Hh as [Hh1 Hh2].
+  specialize (IH Hh2 _ E). destruct so as [[st out] ev]. cbn. eapply (Hs Hh1). exact IH.
+Qed.
+Lemma hard_only_go b :
+  (fix go (l : list stmt) : bool := match l with [] => true | x :: r => hard_only x && go r end) b
+  = hard_only_list b.
+Proof. induction b as [|x r IH]; [reflexivity|]. cbn [hard_only_list]. rewrite <- IH. reflexivity. Qed.
+
+Lemma all_mono : forall s, mono s.
+Proof.
+  apply stmt_rect'; unfold mono.
+  - intros x e d g _ st out ev. rewrite sexec_set. destruct (assign _ _ _ _ _) as [st' e']. cbn.
+    intros H. apply ev_or_none in H. tauto.
+  - intros id x _ st out ev. rewrite sexec_read. cbn. auto.
+  - intros k body H Hh st out ev. cbn [hard_only] in Hh. rewrite hard_only_go in Hh. rewrite sexec_block.
+    pose proof (mono_list body H Hh (spush st TRule [], out, ev)) as M.
+    destruct (sexec_list body _) as [[st' out'] ev']. cbn in *. exact M.
+  - intros c t e _ _ Hh. discriminate.
+  - intros x items body _ Hh. discriminate.
+  - intros x a b incl body H Hh st out ev. cbn [hard_only] in Hh. rewrite hard_only_go in Hh. rewrite sexec_for.
+    generalize (spec_range a b incl). intros l. revert st out ev.
+    induction l as [|i r IH]; intros st out ev; cbn [fold_left]; [auto|].
+    pose proof (mono_list body H Hh (spush st TFor [(x, SV i)], out, ev)) as M.
+    destruct (sexec_list body _) as [[s2 o2] e2]. cbn in M. intros E. apply M. eapply IH. exact E.
+  - intros n body H Hh st out ev. cbn [hard_only] in Hh. rewrite hard_only_go in Hh. rewrite sexec_while.
+    assert (L : forall so, snd (repeat_fn n (sexec_list body) so) = ev_none -> snd so = ev_none).
+    { induction n as [|n IH]; intros so; cbn [repeat_fn]; [auto|].
+      intros E. apply (mono_list body H Hh). apply IH. exact E. }
+    specialize (L (spush st TWhile [], out, ev)).
+    destruct (repeat_fn n _ _) as [[st' out'] ev']. cbn in *. exact L.
+  - intros ps body H Hh st out ev. cbn [hard_only] in Hh. rewrite hard_only_go in Hh. rewrite sexec_mixin. cbn zeta.
+    pose proof (mono_list body H Hh (mkSS [(TMixin, fold_left (fun f p => f_set f (fst p) (snd p))
+        (map (fun p => (fst p, seval_expr st (snd p))) ps) [])] (sglobal st), out, ev)) as M.
+    destruct (sexec_list body _) as [[st' out'] ev']. cbn in *. intros E. apply ev_or_none in E. tauto.
+Qed.
+
+(* the simulation relation: same scopes, and every reference scope is one rsass creates too *)
+Definition R (st : state) (sst : sstate) : Prop :=
+  locals st = map snd (slocals sst) /\ global st = sglobal sst /\
+  forallb (fun tf => is_hard (fst tf)) (slocals sst) = true.
+
+Lemma chain_get_map l x : chain_get (map snd l) x = schain_get l x.
+Proof. induction l as [|[t f] r IH]; [reflexivity|]. cbn. rewrite IH. reflexivity. Qed.
+Lemma R_lookup st sst x : R st sst -> lookup st x = slookup sst x.
+Proof. intros (H1 & H2 & _). unfold lookup, slookup. rewrite H1, H2, chain_get_map. reflexivity. Qed.
+Lemma R_eval st sst e : R st sst -> eval_expr st e = seval_expr sst e.
+Proof. intros H. destruct e; cbn; try reflexivity. rewrite (R_lookup _ _ _ H). reflexivity. Qed.
+
+Lemma update_crossed l x v : forall l' c, update_innermost l x v true = Some (l', c) -> c = true.
+Proof.
+  induction l as [|[t f] r IH]; intros l' c; cbn; [discriminate|].
+  destruct (f_get f x); [intros H; inversion H; reflexivity|].
+  destruct (update_innermost r x v true) as [[r' c']|] eqn:E; [|discriminate].
+  intros H; inversion H; subst. exact (IH r' c eq_refl).
+Qed.
+
+Lemma R_assign st sst x v d g sst' ev' :
+  R st sst -> assign sst x v d g = (sst', ev') -> ev' = ev_none -> R (set_variable st x v d g) sst'.
+Proof.
+  intros HR HA HE. pose proof HR as (H1 & H2 & H3).
+  unfold assign in HA. unfold set_variable. rewrite (R_lookup _ _ x HR).
+  destruct (d && _).
+  { inversion HA; subst. exact HR. }
+  destruct g.
+  { inversion HA; subst. unfold set_global, R. cbn. rewrite H2. auto. }
+  unfold set_current.
+  destruct (slocals sst) as [|[t f] r] eqn:EL.
+  - (* at top level: the current scope is the global one *)
+    cbn in H1. rewrite H1. cbn in HA.
+    assert (HA' : (mkSS [] (f_set (sglobal sst) x v), ev_none) = (sst', ev')).
+    { destruct (f_get (sglobal sst) x); cbn in HA; unfold semi_global, declare_current in HA; rewrite ?EL in HA; cbn in HA; exact HA. }
+    inversion HA'; subst. unfold R. cbn. rewrite H2. auto.
+  - cbn in H1. rewrite H1. cbn [update_innermost] in HA. cbn in H3. apply andb_true_iff in H3. destruct H3 as [Ht Hr].
+    destruct (f_get f x) eqn:EF.
+    + inversion HA; subst. unfold R. cbn. rewrite Ht, Hr. auto.
+    + rewrite Ht in HA. cbn [orb] in HA.
+      destruct (update_innermost r x v true) as [[r' c]|] eqn:EU.
+      * pose proof (update_crossed _ _ _ _ _ EU). subst c. inversion HA; subst. discriminate.
+      * unfold semi_global, declare_current in HA. rewrite EL in HA. cbn in HA.
+        destruct (f_get (sglobal sst) x).
+        -- destruct (is_flow t && _).
+           ++ rewrite Ht in HA. cbn [orb] in HA. inversion HA; subst. discriminate.
+           ++ inversion HA; subst. unfold R. cbn. rewrite Ht, Hr. auto.
+        -- inversion HA; subst. unfold R. cbn. rewrite Ht, Hr. auto.
+Qed.
+
+Lemma R_push st sst t f : R st sst -> is_hard t = true -> R (push st f) (spush sst t f).
+Proof. intros (H1 & H2 & H3) Ht. unfold R. cbn. rewrite H1, H2, Ht, H3. auto. Qed.
+Lemma R_pop st sst : R st sst -> R (pop st) (spop sst).
+Proof.
+  intros (H1 & H2 & H3). unfold R. cbn. rewrite H1, H2. split; [|split; [reflexivity|]].
+  - destruct (slocals sst); reflexivity.
+  - destruct (slocals sst) as [|a r]; [reflexivity|]. cbn in *. apply andb_true_iff in H3. tauto.
+Qed.
+
+Definition sim (s : stmt) : Prop :=
+  hard_only s = true -> forall st sst out ev, R st sst ->
+  snd (sexec s (sst, out, ev)) = ev_none ->
+  R (fst (exec s (st, out))) (fst (fst (sexec s (sst, out, ev)))) /\
+  snd (exec s (st, out)) = snd (fst (sexec s (sst, out, ev))).
+
+Lemma sim_list body : Forall sim body -> hard_only_list body = true ->
+  forall st sst out ev, R st sst ->
+  snd (sexec_list body (sst, out, ev)) = ev_none ->
+  R (fst (exec_list body (st, out))) (fst (fst (sexec_list body (sst, out, ev)))) /\
+  snd (exec_list body (st, out)) = snd (fst (sexec_list body (sst, out, ev))).
+Proof.
+  induction 1 as [|s r Hs Hall IH]; intros Hh st sst out ev HR HE; cbn [exec_list sexec_list] in *; [auto|].
+  cbn [hard_only_list] in Hh. apply andb_true_iff in Hh. destruct Hh as [Hh1 Hh2].
+  assert (M : Forall mono r) by (apply Forall_forall; intros; apply all_mono).
+  pose proof (mono_list r M Hh2 _ HE) as E1.
+  destruct (Hs Hh1 st sst out ev HR E1) as [HR1 HO1].
+  destruct (exec s (st, out)) as [st1 out1]. destruct (sexec s (sst, out, ev)) as [[sst1 sout1] ev1].
+  cbn in *. subst sout1. apply IH; assumption.
+Qed.
+
+Lemma all_sim : forall s, sim s.
+Proof.
+  apply stmt_rect'; unfold sim.
+  - intros x e d g _ st sst out ev HR. rewrite sexec_set, exec_set.
+    rewrite (R_eval _ _ e HR).
+    destruct (assign sst x (seval_expr sst e) d g) as [sst' e'] eqn:EA. cbn. intros HE.
+    apply ev_or_none in HE. destruct HE as [_ HE]. split; [|reflexivity].
+    eapply R_assign; eauto.
+  - intros id x _ st sst out ev HR. rewrite sexec_read, exec_read. cbn. intros _.
+    rewrite (R_lookup _ _ x HR). auto.
+  - intros k body H Hh st sst out ev HR. cbn [hard_only] in Hh. rewrite hard_only_go in Hh.
+    rewrite sexec_block, exec_block.
+    pose proof (sim_list body H Hh (push st []) (spush sst TRule []) out ev (R_push _ _ TRule [] HR eq_refl)) as S.
+    destruct (exec_list body (push st [], out)) as [st' out'].
+    destruct (sexec_list body (spush sst TRule [], out, ev)) as [[sst' sout'] ev']. cbn in *.
+    intros HE. destruct (S HE) as [HR' HO]. split; [apply R_pop; exact HR' | exact HO].
+  - intros c t e _ _ Hh. discriminate.
+  - intros x items body _ Hh. discriminate.
+  - intros x a b incl body H Hh st sst out ev HR. cbn [hard_only] in Hh. rewrite hard_only_go in Hh.
+    rewrite sexec_for, exec_for. generalize (spec_range a b incl). intros l. revert st sst out ev HR.
+    induction l as [|i r IH]; intros st sst out ev HR; cbn [fold_left]; [cbn; auto|].
+    cbn [fst snd].
+    pose proof (sim_list body H Hh (push st [(x, SV i)]) (spush sst TFor [(x, SV i)]) out ev
+                  (R_push _ _ TFor _ HR eq_refl)) as S.
+    assert (MB : Forall mono body) by (apply Forall_forall; intros; apply all_mono).
+    destruct (exec_list body (push st [(x, SV i)], out)) as [st' out'].
+    destruct (sexec_list body (spush sst TFor [(x, SV i)], out, ev)) as [[sst' sout'] ev'] eqn:EB.
+    intros HE.
+    assert (E1 : ev' = ev_none).
+    { clear - HE H Hh MB. revert HE. generalize (spop sst') sout' ev'. clear sst' sout' ev'.
+      induction r as [|j r IHr]; intros s0 o0 e0; cbn [fold_left]; [auto|].
+      pose proof (mono_list body MB Hh (spush s0 TFor [(x, SV j)], o0, e0)) as M.
+      destruct (sexec_list body _) as [[s2 o2] e2]. cbn in M. intros E. apply M. eapply IHr. exact E. }
+    cbn in S. destruct (S E1) as [HR' HO]. subst sout'.
+    apply IH; [apply R_pop; exact HR' | exact HE].
+  - intros n body H Hh st sst out ev HR. cbn [hard_only] in Hh. rewrite hard_only_go in Hh.
+    rewrite sexec_while, exec_while.
+    assert (MB : Forall mono body) by (apply Forall_forall; intros; apply all_mono).
+    assert (L : forall st sst out ev, R st sst ->
+              snd (repeat_fn n (sexec_list body) (sst, out, ev)) = ev_none ->
+              R (fst (repeat_fn n (exec_list body) (st, out))) (fst (fst (repeat_fn n (sexec_list body) (sst, out, ev)))) /\
+              snd (repeat_fn n (exec_list body) (st, out)) = snd (fst (repeat_fn n (sexec_list body) (sst, out, ev)))).
+    { clear st sst out ev HR. induction n as [|n IH]; intros st sst out ev HR; cbn [repeat_fn]; [cbn; auto|].
+      intros HE.
+      assert (E1 : snd (sexec_list body (sst, out, ev)) = ev_none).
+      { clear - HE MB Hh. revert HE. generalize (sexec_list body (sst, out, ev)). clear sst out ev.
+        induction n as [|n IHn]; intros so; cbn [repeat_fn]; [auto|].
+        intros E. apply (mono_list body MB Hh). apply IHn. exact E. }
+      destruct (sim_list body H Hh st sst out ev HR E1) as [HR1 HO1].
+      destruct (exec_list body (st, out)) as [st1 out1].
+      destruct (sexec_list body (sst, out, ev)) as [[sst1 sout1] ev1]. cbn in *. subst sout1.
+      apply IH; assumption. }
+    specialize (L (push st []) (spush sst TWhile []) out ev (R_push _ _ TWhile [] HR eq_refl)).
+    destruct (repeat_fn n (exec_list body) (push st [], out)) as [st' out'].
+    destruct (repeat_fn n (sexec_list body) (spush sst TWhile [], out, ev)) as [[sst' sout'] ev']. cbn in *.
+    intros HE. destruct (L HE) as [HR' HO]. split; [apply R_pop; exact HR' | exact HO].
+  - intros ps body H Hh st sst out ev HR. cbn [hard_only] in Hh. rewrite hard_only_go in Hh.
+    rewrite sexec_mixin, exec_mixin. cbn zeta.
+    assert (EA : map (fun p => (fst p, eval_expr st (snd p))) ps = map (fun p => (fst p, seval_expr sst (snd p))) ps).
+    { apply map_ext. intros p. rewrite (R_eval _ _ _ HR). reflexivity. }
+    rewrite EA.
+    match goal with |- context [fold_left ?f ?l (@nil (var * sval))] => set (pf := fold_left f l []) end.
+    pose proof HR as (H1 & H2 & H3).
+    assert (HR0 : R (mkSt [pf] (global st)) (mkSS [(TMixin, pf)] (sglobal sst))).
+    { unfold R. cbn. rewrite H2. auto. }
+    pose proof (sim_list body H Hh _ _ out ev HR0) as S.
+    destruct (exec_list body (mkSt [pf] (global st), out)) as [st' out'].
+    destruct (sexec_list body (mkSS [(TMixin, pf)] (sglobal sst), out, ev)) as [[sst' sout'] ev']. cbn in *.
+    intros HE. apply ev_or_none in HE. destruct HE as [HE _].
+    destruct (S HE) as [(_ & HG & _) HO]. split; [|exact HO].
+    unfold R. cbn. rewrite H1, HG. auto.
+Qed.
+
+Lemma main_gen p st sst out :
+  R st sst -> hard_only_list p = true ->
+  snd (sexec_list p (sst, out, ev_none)) = ev_none ->
+  snd (exec_list p (st, out)) = snd (fst (sexec_list p (sst, out, ev_none))).
+Proof.
+  intros HR Hh HE.
+  assert (A : Forall sim p) by (apply Forall_forall; intros; apply all_sim).
+  exact (proj2 (sim_list p A Hh st sst out ev_none HR HE)).
+Qed.
+
+Lemma spec_run_out p : fst (spec_run p) = snd (fst (sexec_list p (mkSS [] [], [], ev_none))).
+Proof. unfold spec_run. destruct (sexec_list p _) as [[a b] c]. reflexivity. Qed.
+Lemma spec_run_ev p : snd (spec_run p) = snd (sexec_list p (mkSS [] [], [], ev_none)).
+Proof. unfold spec_run. destruct (sexec_list p _) as [[a b] c]. reflexivity. Qed.
+
+Lemma main_partial p :
+  hard_only_list p = true -> known_class p = 0 -> run_prog p = fst (spec_run p).
+Proof.
+  intros Hh Hk.
+  assert (HR : R (mkSt [] []) (mkSS [] [])) by (unfold R; cbn; auto).
+  assert (E : snd (spec_run p) = ev_none).
+  { unfold known_class in Hk. destruct (snd (spec_run p)) as [a b c]. cbn in Hk.
+    destruct a; [discriminate|]. destruct b; [discriminate|]. destruct c; [discriminate|]. reflexivity. }
+  pose proof (spec_run_ev p) as Ev. pose proof (spec_run_out p) as Ou.
+  unfold run_prog. refine (eq_trans _ (eq_sym Ou)).
+  apply main_gen; [exact HR | exact Hh | exact (eq_trans (eq_sym Ev) E)].
+Qed.
